@@ -6,8 +6,20 @@ V_ = 'ModifyContract'
 MUTABLE = {'approvers', 'executors', 'ask_fee_info', 'bid_fee_info', 'ask_required_attributes', 'bid_required_attributes'}
 MARKET = ['name', 'bind_name', 'base_denom', 'convertible_base_denoms', 'supported_quote_denoms', 'price_precision', 'size_increment']
 
+def validating_collect(t, listterm):
+    """t == collect(map(iter(listterm), |x| addr_validate(x))) -- the iterator form of the validation loop (a Result<Vec<Addr>>)"""
+    if t[0] != 'collect' or t[1][0] != 'call' or not t[1][1].endswith('::map'): return False
+    args = t[1][2]
+    if len(args) != 2 or args[0] != ('iter', listterm) or args[1][0] != 'lambda': return False
+    lam = args[1]
+    if len(lam[3]) != 1: return False
+    facts, ret = lam[3][0]
+    return not facts and ret[0] == 'rcall' and ret[1] == 'addr_validate' and len(ret[2]) == 1 and ret[2][0][0] == 'bound'
+
 def validated_list(listterm, got):
-    """got == [ok(addr_validate(e0)), ok(addr_validate(e1)) ...] for the iterated elements of listterm, in order"""
+    """got == [ok(addr_validate(e0)), ok(addr_validate(e1)) ...] for the iterated elements of listterm, in order;
+    or the Ok payload of collect(map(iter(listterm), addr_validate))"""
+    if got[0] == 'v' and got[2] == 'Ok' and validating_collect(got[1], listterm): return True
     if got[0] != 'vec': return False
     for k, x in enumerate(got[1]):
         elem = V(('iternext', ('iter', listterm), k), 'Some')
